@@ -97,6 +97,9 @@ def check_C06(run):
     # map ... | FUNC at exactly the configured field lives in the struct family
     import fam_struct
     fam_struct.pipeline(run)
+    # a declared method behind skipCopySameType on its caller is an effect witness
+    import fam_text
+    fam_text.witness(run)
     n, d = summarise(run, obs, True)
     run.assumptions = ASSUME
     return run.finish("every generated method executed on every (capped) input; the extend function marks its argument (and the context token it received); TLC demands the mark at every int->string position at any depth; distinct = distinct (program, input, fault plan, result)", n, d)
